@@ -27,6 +27,7 @@ import (
 	"github.com/olive-io/bpmn/v2/pkg/event"
 	"github.com/olive-io/bpmn/v2/pkg/id"
 	"github.com/olive-io/bpmn/v2/pkg/tracing"
+	"github.com/olive-io/bpmn/v2/pkg/verifhook"
 )
 
 type Options struct {
@@ -605,6 +606,7 @@ func (p *Process) StartWith(ctx context.Context, element schema.FlowNodeInterfac
 		eventNode.Trigger(ctx)
 
 		// StartAll cease flow monitor
+		verifhook.Point("process.started")
 		sender := p.tracer.RegisterSender()
 		go p.ceaseFlowMonitor(p.subTracer)(ctx, sender)
 		p.tracer.Send(InstantiationTrace{InstanceId: p.id})
@@ -711,6 +713,7 @@ func (p *Process) ceaseFlowMonitor(tracer tracing.ITracer) func(ctx context.Cont
 		tracer.Unsubscribe(traces)
 
 		// Then, we're waiting for (2) to occur
+		verifhook.Point("process.monitor")
 		waitIsOver := make(chan struct{})
 		go func() {
 			p.flowWaitGroup.Wait()
@@ -732,6 +735,7 @@ func (p *Process) WaitUntilComplete(ctx context.Context) (complete bool) {
 	go func() {
 		p.complete.Lock()
 		defer p.complete.Unlock()
+		verifhook.Point("process.wait")
 		signal <- true
 	}()
 	select {
